@@ -10,6 +10,7 @@ Per history (a list of decoded events, see harness/props/_pipeline.py) two thing
 """
 from harness.props import _pipeline as P
 from harness.props import _namebufs as NB
+from harness.props import _dress as DR
 
 RULE = ('histories over the name lattice /a, /a/b, /a/b/c, /x (with/without implicit digest), 1-6 concurrent Interests incl. '
         'several per name, events Express+Await/Data/Nack/VDone/Cancel/Shutdown/AdvanceTo with event times drawn at, one '
@@ -59,7 +60,30 @@ RULE = ('histories over the name lattice /a, /a/b, /a/b/c, /x (with/without impl
         'behind one of its events (two rotating points + all points at once in quick, every point in thorough); random well-formed and '
         'deferred-await histories with a random representation per Interest and 1-3 rewrites (400 / 5000 per front-end). Two shapes of this family exposed genuine aliasing defects of the library (the implicit digest kept as a view of the caller\'s '
         'memory; the table node looked up under the caller\'s component list at timeout / cancel), repaired by fix: 2146f96 and judged like '
-        'everything else since (VERIF_C03_JUDGE_OPEN=0 restores the pre-fix split into judged / counted). non-trivial = at least one Interest and more than two events')
+        'everything else since (VERIF_C03_JUDGE_OPEN=0 restores the pre-fix split into judged / counted). '
+        'PACKET DRESS (harness/props/_dress.py; harness-level events pkt / via / iopt, invisible to model and specification, where a Data is '
+        'an id, a name and a hash and an Interest a name, CanBePrefix, a digest and a lifetime: what the receive path can SEE of a Data / '
+        'Nack / Interest but the property says must not matter): every Data id is a packet (MetaInfo x Content x signature) - MetaInfo of 22 '
+        'kinds (absent, empty, ContentType 0 spelt out, FreshnessPeriod 0 explicitly encoded / 1 / 4000 / 2^32 / 2^64-1, ContentType LINK, KEY, '
+        'NACK, manifest, prefix announcement, KITE, FLIC, application-defined, 2^64-1, FinalBlockId, combinations), Content {names the id, '
+        'absent, empty, 6 kB}, signature {DigestSha256, none at all, null, HMAC, ECDSA, RSA, Ed25519}; every Data / Nack EVENT is delivered in '
+        'one of 16 ways - the bare packet, or the Fragment of an NDNLPv2 LpPacket with no header, PitToken of 0 / 4 / 8 / 32 octets, '
+        'CongestionMark 0 / 1 / 2^64-1, PitToken + CongestionMark, IncomingFaceId, CachePolicy, Ack + TxSequence, NonDiscovery + '
+        'PrefixAnnouncement, an unknown ignorable header field, all of them (type-number order; for a Nack around the Nack header, the enclosed '
+        'Interest with CanBePrefix / MustBeFresh / HopLimit by rotation); Interests carry MustBeFresh and / or HopLimit; the implicit digest of '
+        'a data id is the SHA-256 of its BARE packet however it is delivered. Delivery table: 16 ways x {Data next to a longer-named Interest, '
+        'right / wrong / no digest on one name with two Data, digest alone, CanBePrefix + digest under a longer Data name, MustBeFresh alone / '
+        'with CanBePrefix / with digest / HopLimit, Nacks for the plain and the digest name in every reason form, Data on the deadline in the '
+        'three tie modes, Data during a validation + a second Interest with digest}; packet table: every MetaInfo x Content (signature kinds '
+        'rotating; thorough: full cross product x 3 deliveries) x 7 Interest shapes {plain, CanBePrefix under a longer Data name, MustBeFresh, '
+        'MustBeFresh + CanBePrefix, right digest, wrong digest next to a right one with CanBePrefix, MustBeFresh + right digest + HopLimit}, each '
+        'next to a digest Interest served by a second Data only; EVERY well-formed / deferred targeted pattern above dressed (rotating forms per '
+        'data id, deliveries per event, MustBeFresh / HopLimit per Interest; 2 plans per pattern in quick, 6 in thorough incl. the '
+        'deferred-await family); random well-formed / deferred / caller-buffer histories in a random dress (500 / 6000 per front-end; half of '
+        'the forms FreshnessPeriod 0 / no MetaInfo, 70 % of the packets inside an LpPacket, MustBeFresh on half of the Interests). A Data handed '
+        'to the caller is identified by its content or, when it has none, by the signature the validator of that Interest last saw, and its '
+        'content must be the content of that packet (else internal-error:data-or-content-never-delivered). '
+        'non-trivial = at least one Interest and more than two events')
 ASSUMPTIONS = ['asyncio (CPython 3.12: Future, Task.cancel, wait_for/timeouts.Timeout, FIFO ready queue) is the event '
                'alphabet of the model; the three tie modes are the linearisations a loop turn permits',
                'validators are harness coroutines that answer at once or wait on a harness future; validators raising '
@@ -123,6 +147,18 @@ def run(ctx):
         for k in range(ctx.n(400, 5000)):
             base = P.rand_history_deferred(ctx.rng, fe) if k % 4 == 3 else P.fix_digest_names(P.rand_history(ctx.rng, fe, wf=True))
             P.check_history(ctx, fe, NB.randomised(ctx.rng, fe, base), 'random-buffers', 'C03')
+        # packet dress: what the Data / Nack looks like and how it is delivered (bare / NDNLPv2 LpPacket with header fields),
+        # MustBeFresh / HopLimit on the Interest - nothing of it may change an outcome
+        for tag, h in DR.family(fe, full=ctx.thorough):
+            P.check_history(ctx, fe, h, tag, 'C03')
+        for tag, h in DR.transformed(fe, P.targeted(fe) + (P.deferred_family(fe, full=False) if ctx.thorough else []),
+                                     full=ctx.thorough):
+            P.check_history(ctx, fe, h, tag, 'C03')
+        for k in range(ctx.n(500, 6000)):
+            base = P.rand_history_deferred(ctx.rng, fe) if k % 4 == 3 else P.fix_digest_names(P.rand_history(ctx.rng, fe, wf=True))
+            if k % 5 == 4:
+                base = NB.randomised(ctx.rng, fe, base)
+            P.check_history(ctx, fe, DR.randomised(ctx.rng, fe, base), 'random-dressed', 'C03')
         n = ctx.n(900, 8000)
         for k in range(n):
             wf = ctx.rng.random() < 0.85
